@@ -7,6 +7,7 @@ from vf.explore import cur
 from vf.effects import Patch, note
 from vf import logic as L
 from contracts import harness as H, c30, c05_history as HI
+from contracts import c05_entity_sql as ES
 from pony import orm, options
 from pony.orm import core, decompiling
 from pony.utils import utils as putils
@@ -249,4 +250,6 @@ CONTRACTS = [c for c in c30.CONTRACTS if c.id in ('adapt_sql.cache', 'parse_raw_
     Contract('warm_vs_cold_histories', ['pony.orm.asttranslation:create_extractors', 'pony.orm.core:Query._actual_fetch', 'pony.orm.core:QueryResult', 'pony.orm.core:SessionCache.flush',
                                         'pony.orm.core:Query._get_translator', 'pony.orm.core:extract_vars', 'pony.orm.core:Database._exec_raw_sql'],
              HI.configs, HI.case, [('warm_trace_equals_cold_trace', HI.spec)], level='bounded', bound=HI.BOUND_Q + ' (thorough: ' + HI.BOUND_T + ')'),
+    Contract('entity_sql_caches', ['pony.orm.core:EntityMeta._construct_sql_', 'pony.orm.core:EntityMeta._construct_batchload_sql_', 'pony.orm.core:EntityMeta._construct_select_clause_'],
+             ES.configs, ES.case, [('warm_answer_equals_cold_answer', ES.spec)], level='bounded', bound=ES.BOUND),
 ]
